@@ -209,4 +209,851 @@ Proof.
   apply nth_error_Some. congruence.
 Qed.
 
+(* ------------------------------------------------------------------------------------ *)
+(* 3. bp_topo solves the adjoint equations                                               *)
+(* ------------------------------------------------------------------------------------ *)
+
+(* each back edge of node c reads the gradient of c itself *)
+Definition rules_own (h : heap) : Prop :=
+  forall c n e, nth_error h c = Some n -> In e (nedges n) -> rule_y (snd e) = c.
+(* result ids are larger than operand ids *)
+Definition wf_heap (h : heap) : Prop :=
+  forall c n e, nth_error h c = Some n -> In e (nedges n) -> fst e < c.
+
+Lemma rules_own_edgesOf (h : heap) : rules_own h -> forall c e, In e (edgesOf h c) -> rule_y (snd e) = c.
+Proof.
+  intros H c e He. unfold edgesOf in He. destruct (nth_error h c) as [n|] eqn:En; [|destruct He].
+  eapply H; eauto.
+Qed.
+Lemma wf_heap_edgesOf (h : heap) : wf_heap h -> forall c e, In e (edgesOf h c) -> fst e < c.
+Proof.
+  intros H c e He. unfold edgesOf in He. destruct (nth_error h c) as [n|] eqn:En; [|destruct He].
+  eapply H; eauto.
+Qed.
+
+Fixpoint ordered (h : heap) (p : list nat) : Prop :=
+  match p with
+  | [] => True
+  | n :: r => (forall e, In e (edgesOf h n) -> trackedOf h (fst e) = true -> In (fst e) r) /\ ordered h r
+  end.
+
+(* same immutable structure: values, tracking flags, edges, size *)
+Definition sameS (h1 h2 : heap) : Prop :=
+  length h1 = length h2 /\
+  forall i, valOf h1 i = valOf h2 i /\ trackedOf h1 i = trackedOf h2 i /\ edgesOf h1 i = edgesOf h2 i.
+
+Lemma sameS_refl h : sameS h h.
+Proof. split; [reflexivity|]. intros i. repeat split. Qed.
+Lemma sameS_trans h1 h2 h3 : sameS h1 h2 -> sameS h2 h3 -> sameS h1 h3.
+Proof.
+  intros [L1 H1] [L2 H2]. split; [congruence|]. intros i.
+  destruct (H1 i) as (a1 & b1 & c1). destruct (H2 i) as (a2 & b2 & c2). repeat split; congruence.
+Qed.
+Lemma sameS_sym h1 h2 : sameS h1 h2 -> sameS h2 h1.
+Proof.
+  intros [L1 H1]. split; [congruence|]. intros i. destruct (H1 i) as (a1 & b1 & c1). repeat split; congruence.
+Qed.
+Lemma sameS_setGrad h i g : sameS h (setGrad h i g).
+Proof.
+  split; [symmetry; apply length_setGrad|]. intros j.
+  rewrite valOf_setGrad, trackedOf_setGrad, edgesOf_setGrad. repeat split.
+Qed.
+Lemma sameS_markDirty h l : sameS h (markDirty h l).
+Proof.
+  split; [symmetry; apply length_markDirty|]. intros j.
+  rewrite valOf_markDirty, trackedOf_markDirty, edgesOf_markDirty. repeat split.
+Qed.
+Lemma sameS_val h1 h2 : sameS h1 h2 -> forall i, valOf h1 i = valOf h2 i.
+Proof. intros [_ H] i. apply H. Qed.
+Lemma sameS_trk h1 h2 : sameS h1 h2 -> forall i, trackedOf h1 i = trackedOf h2 i.
+Proof. intros [_ H] i. apply H. Qed.
+Lemma sameS_edges h1 h2 : sameS h1 h2 -> forall i, edgesOf h1 i = edgesOf h2 i.
+Proof. intros [_ H] i. apply H. Qed.
+
+Lemma ordered_sameS h1 h2 l : sameS h1 h2 -> ordered h1 l -> ordered h2 l.
+Proof.
+  intros HS. induction l as [|c l IH]; cbn [ordered]; [trivial|]. intros [Hc Hl]. split; [|auto].
+  intros e He Ht. rewrite <- (sameS_edges _ _ HS) in He. rewrite <- (sameS_trk _ _ HS) in Ht. auto.
+Qed.
+
+Lemma ordered_in h l : ordered h l -> forall c e, In c l -> In e (edgesOf h c) ->
+  trackedOf h (fst e) = true -> In (fst e) l.
+Proof.
+  induction l as [|a l IH]; intros Ho c e Hc He Ht; [destruct Hc|].
+  destruct Ho as [Ha Ho]. destruct Hc as [->|Hc].
+  - right. apply Ha; assumption.
+  - right. eapply IH; eauto.
+Qed.
+
+(* accumulateGrad as a pure function:  None + g = g,  Some g0 + g = g0.Add(g)  *)
+Definition acc1 (o : option T) (g : T) : option (option T) :=
+  match o with
+  | None => Some (Some g)
+  | Some g0 => match v_arith BiAdd g0 g with Ok s => Some (Some s) | _ => None end
+  end.
+Fixpoint accAll (o : option T) (l : list T) : option (option T) :=
+  match l with
+  | [] => Some o
+  | g :: r => match acc1 o g with Some o' => accAll o' r | None => None end
+  end.
+
+Lemma accAll_app o l1 l2 :
+  accAll o (l1 ++ l2) = match accAll o l1 with Some o' => accAll o' l2 | None => None end.
+Proof.
+  revert o. induction l1 as [|g l1 IH]; intros o; cbn [app accAll]; [reflexivity|].
+  destruct (acc1 o g) as [o'|]; [apply IH|reflexivity].
+Qed.
+
+Lemma acc1_some o g o' : acc1 o g = Some o' -> o' <> None.
+Proof.
+  unfold acc1. destruct o as [g0|].
+  - destruct (v_arith BiAdd g0 g); intros E; inversion E; discriminate.
+  - intros E; inversion E; discriminate.
+Qed.
+Lemma accAll_nonempty o l o' : accAll o l = Some o' -> l <> [] -> o' <> None.
+Proof.
+  revert o. induction l as [|g l IH]; intros o E Hl; [congruence|]. cbn [accAll] in E.
+  destruct (acc1 o g) as [o1|] eqn:E1; [|discriminate].
+  destruct l as [|g2 l]; [cbn in E; inversion E; subst; eapply acc1_some; eauto|].
+  eapply IH; [exact E|discriminate].
+Qed.
+
+Lemma accumulate_ok (h : heap) i g h' r :
+  accumulate h i g = (h', r) -> r = Ok tt ->
+  exists o', acc1 (gradOf h i) g = Some o' /\ h' = setGrad h i o'.
+Proof.
+  unfold accumulate, acc1. intros E Hr. subst r. destruct (gradOf h i) as [g0|].
+  - destruct (v_arith BiAdd g0 g) as [s| |]; inversion E. eexists; split; reflexivity.
+  - inversion E. eexists; split; reflexivity.
+Qed.
+
+Section Run.
+Variable rd : bred.
+Notation idseal := (fun (_ : option nat) (g : T) => g).
+
+(* --- errors are sticky --- *)
+Lemma pe_sticky c es : forall (h : heap) r, r <> Ok tt ->
+  fold_left (process_edge rd c) es (h, r) = (h, r).
+Proof.
+  induction es as [|e es IH]; intros h r Hr; cbn [fold_left]; [reflexivity|].
+  destruct r as [[]| |]; [congruence| |]; cbn [process_edge]; apply IH; assumption.
+Qed.
+
+Lemma pe_fold_cons c e es (h h' : heap) :
+  fold_left (process_edge rd c) (e :: es) (h, Ok tt) = (h', Ok tt) ->
+  exists h1, process_edge rd c (h, Ok tt) e = (h1, Ok tt) /\
+             fold_left (process_edge rd c) es (h1, Ok tt) = (h', Ok tt).
+Proof.
+  cbn [fold_left]. destruct (process_edge rd c (h, Ok tt) e) as [h1 r1] eqn:E1. intros E.
+  destruct r1 as [[]| |].
+  - exists h1. split; [reflexivity|exact E].
+  - rewrite pe_sticky in E by discriminate. inversion E.
+  - rewrite pe_sticky in E by discriminate. inversion E.
+Qed.
+
+Lemma process_edge_ok c (h : heap) e h' :
+  process_edge rd c (h, Ok tt) e = (h', Ok tt) ->
+  (trackedOf h (fst e) = false /\ h' = h) \/
+  (trackedOf h (fst e) = true /\ exists g o', eval_rule rd h (snd e) = Ok g /\
+       acc1 (gradOf h (fst e)) g = Some o' /\ h' = setGrad h (fst e) o').
+Proof.
+  cbn [process_edge]. destruct (trackedOf h (fst e)) eqn:Et.
+  - destruct (eval_rule rd h (snd e)) as [g| |] eqn:Ee; intros E; [|inversion E|inversion E].
+    right. split; [reflexivity|]. destruct (accumulate_ok _ _ _ _ _ E eq_refl) as (o' & Ho & Hh).
+    exists g, o'. auto.
+  - intros E. inversion E. left. auto.
+Qed.
+
+Lemma pn_sticky l : forall (h : heap) log r, r <> Ok tt ->
+  fold_left (process_node rd idseal) l (h, log, r) = (h, log, r).
+Proof.
+  induction l as [|c l IH]; intros h log r Hr; cbn [fold_left]; [reflexivity|].
+  destruct r as [[]| |]; [congruence| |]; cbn [process_node]; apply IH; assumption.
+Qed.
+
+(* contribution of one back edge to node n, evaluated in heap hf *)
+Definition contrib_e (hf : heap) (n : nat) (e : nat * rule) : list T :=
+  if fst e =? n then match eval_rule rd hf (snd e) with Ok g => [g] | _ => [] end else [].
+
+(* contributions to n of the back edges (read in hs) of the nodes of order, evaluated in hf *)
+Definition contributions (hf hs : heap) (order : list nat) (n : nat) : list T :=
+  flat_map (fun c => flat_map (contrib_e hf n) (edgesOf hs c)) order.
+
+Lemma contrib_e_ext (h1 h2 : heap) n e :
+  (forall i, valOf h1 i = valOf h2 i) -> gradOf h1 (rule_y (snd e)) = gradOf h2 (rule_y (snd e)) ->
+  contrib_e h1 n e = contrib_e h2 n e.
+Proof. intros Hv Hg. unfold contrib_e. rewrite (eval_rule_ext rd h1 h2 (snd e) Hv Hg). reflexivity. Qed.
+
+(* --- the edges of one node --- *)
+Lemma process_edges_spec c es : forall (h h' : heap),
+  (forall e, In e es -> fst e <> c) ->
+  (forall e, In e es -> rule_y (snd e) = c) ->
+  fold_left (process_edge rd c) es (h, Ok tt) = (h', Ok tt) ->
+  sameS h h' /\ gradOf h' c = gradOf h c /\
+  (forall n, trackedOf h n = true -> accAll (gradOf h n) (flat_map (contrib_e h n) es) = Some (gradOf h' n)) /\
+  (forall n, trackedOf h n = false -> gradOf h' n = gradOf h n) /\
+  (forall e, In e es -> trackedOf h (fst e) = true -> exists g, eval_rule rd h (snd e) = Ok g).
+Proof.
+  induction es as [|e es IH]; intros h h' Hne Hown E.
+  - cbn [fold_left] in E. inversion E; subst h'. split; [apply sameS_refl|]. split; [reflexivity|].
+    split; [intros n _; reflexivity|]. split; [intros n _; reflexivity|]. intros e [].
+  - destruct (pe_fold_cons _ _ _ _ _ E) as (h1 & E1 & E2).
+    assert (Hne' : forall e0, In e0 es -> fst e0 <> c) by (intros e0 H0; apply Hne; right; exact H0).
+    assert (Hown' : forall e0, In e0 es -> rule_y (snd e0) = c) by (intros e0 H0; apply Hown; right; exact H0).
+    destruct (IH h1 h' Hne' Hown' E2) as (IS & Ic & Iacc & Iun & Iok). clear IH.
+    destruct (process_edge_ok _ _ _ _ E1) as [[Et Hh]|[Et (g & o' & Hev & Hacc & Hh)]].
+    + subst h1. split; [exact IS|]. split; [exact Ic|]. split; [|split].
+      * intros n Hn. cbn [flat_map]. unfold contrib_e at 1.
+        destruct (fst e =? n) eqn:Een; [apply Nat.eqb_eq in Een; congruence|]. cbn [app]. apply Iacc. exact Hn.
+      * exact Iun.
+      * intros e0 [->|H0] Ht0; [congruence|]. apply Iok; assumption.
+    + assert (HS1 : sameS h h1) by (subst h1; apply sameS_setGrad).
+      assert (Hlt : fst e < length h) by (apply tracked_lt; exact Et).
+      assert (Hc1 : gradOf h1 c = gradOf h c).
+      { subst h1. rewrite gradOf_setGrad. assert (X : c <> fst e) by (intro X; symmetry in X; revert X; apply Hne; left; reflexivity).
+        apply Nat.eqb_neq in X. rewrite X. reflexivity. }
+      assert (Hext : forall n e0, In e0 es -> contrib_e h1 n e0 = contrib_e h n e0).
+      { intros n e0 H0. apply contrib_e_ext; [intros i; symmetry; apply (sameS_val _ _ HS1)|].
+        rewrite (Hown' e0 H0). exact Hc1. }
+      split; [eapply sameS_trans; eauto|]. split; [congruence|]. split; [|split].
+      * intros n Hn. cbn [flat_map]. rewrite accAll_app.
+        rewrite (sameS_trk _ _ HS1) in Hn. specialize (Iacc n Hn).
+        rewrite (flat_map_ext_in' _ _ _ (Hext n)) in Iacc.
+        unfold contrib_e at 1. destruct (fst e =? n) eqn:Een.
+        -- apply Nat.eqb_eq in Een. subst n. rewrite Hev. cbn [accAll]. rewrite Hacc.
+           subst h1. rewrite gradOf_setGrad, Nat.eqb_refl in Iacc. apply Nat.ltb_lt in Hlt. rewrite Hlt in Iacc. exact Iacc.
+        -- cbn [accAll]. subst h1. rewrite gradOf_setGrad in Iacc. rewrite Nat.eqb_sym in Een. rewrite Een in Iacc. exact Iacc.
+      * intros n Hn. rewrite (sameS_trk _ _ HS1) in Hn. rewrite (Iun n Hn). subst h1. rewrite gradOf_setGrad.
+        destruct (n =? fst e) eqn:Een; [|reflexivity]. apply Nat.eqb_eq in Een. subst n.
+        rewrite <- (sameS_trk _ _ HS1) in Hn. congruence.
+      * intros e0 [->|H0] Ht0; [eauto|]. rewrite (sameS_trk _ _ HS1) in Ht0.
+        destruct (Iok e0 H0 Ht0) as (g0 & Hg0). exists g0. rewrite <- Hg0.
+        apply eval_rule_ext; [apply (sameS_val _ _ HS1)|]. rewrite (Hown' e0 H0). congruence.
+Qed.
+
+(* --- one node --- *)
+Lemma process_node_spec (h : heap) log c h2 log2 :
+  rules_own h -> wf_heap h ->
+  process_node rd idseal (h, log, Ok tt) c = (h2, log2, Ok tt) ->
+  sameS h h2 /\ gradOf h2 c = gradOf h c /\
+  (forall n, trackedOf h n = true ->
+             accAll (gradOf h n) (flat_map (contrib_e h n) (edgesOf h c)) = Some (gradOf h2 n)) /\
+  (forall n, trackedOf h n = false -> gradOf h2 n = gradOf h n) /\
+  log2 = (match gradOf h c with Some g => [(c, g)] | None => [] end) ++ log /\
+  (gradOf h c <> None -> forall e, In e (edgesOf h c) -> trackedOf h (fst e) = true ->
+                         exists g, eval_rule rd h (snd e) = Ok g).
+Proof.
+  intros Hown Hwf. cbn [process_node]. destruct (nth_error h c) as [nd|] eqn:En; [|intros E; inversion E].
+  assert (Hed : edgesOf h c = nedges nd) by (unfold edgesOf; rewrite En; reflexivity).
+  assert (Hgr : gradOf h c = ngrad nd) by (unfold gradOf; rewrite En; reflexivity).
+  assert (Hlt : c < length h) by (apply nth_error_Some; congruence).
+  destruct (ngrad nd) as [g|] eqn:Eg.
+  - set (h1 := setGrad h c (Some g)).
+    destruct (fold_left (process_edge rd c) (nedges nd) (h1, Ok tt)) as [hh r] eqn:Ef.
+    intros E. inversion E; subst hh log2 r. clear E.
+    assert (HS1 : sameS h h1) by apply sameS_setGrad.
+    assert (Hg1 : forall j, gradOf h1 j = gradOf h j).
+    { intros j. unfold h1. rewrite gradOf_setGrad. destruct (j =? c) eqn:Ej; [|reflexivity].
+      apply Nat.eqb_eq in Ej. subst j. apply Nat.ltb_lt in Hlt. rewrite Hlt. congruence. }
+    assert (Hne : forall e, In e (nedges nd) -> fst e <> c).
+    { intros e He. rewrite <- Hed in He. apply (wf_heap_edgesOf _ Hwf) in He. lia. }
+    assert (Hy : forall e, In e (nedges nd) -> rule_y (snd e) = c).
+    { intros e He. rewrite <- Hed in He. apply (rules_own_edgesOf _ Hown) in He. exact He. }
+    destruct (process_edges_spec _ _ _ _ Hne Hy Ef) as (PS & Pc & Pacc & Pun & Pok).
+    assert (Hext : forall n e0, contrib_e h1 n e0 = contrib_e h n e0).
+    { intros n e0. apply contrib_e_ext; [intros i; symmetry; apply (sameS_val _ _ HS1)|apply Hg1]. }
+    split; [eapply sameS_trans; eauto|]. split; [rewrite Pc; apply Hg1|]. split; [|split; [|split]].
+    + intros n Hn. rewrite (sameS_trk _ _ HS1) in Hn. specialize (Pacc n Hn). rewrite Hg1 in Pacc.
+      rewrite Hed. rewrite <- Pacc. f_equal. apply flat_map_ext_in'. intros e0 _. symmetry. apply Hext.
+    + intros n Hn. rewrite (sameS_trk _ _ HS1) in Hn. rewrite (Pun n Hn). apply Hg1.
+    + rewrite Hgr. reflexivity.
+    + intros _ e He Ht. rewrite Hed in He. rewrite (sameS_trk _ _ HS1) in Ht.
+      destruct (Pok e He Ht) as (g0 & Hg0). exists g0. rewrite <- Hg0.
+      apply eval_rule_ext; [apply (sameS_val _ _ HS1)|symmetry; apply Hg1].
+  - intros E. inversion E; subst h2 log2. clear E.
+    split; [apply sameS_refl|]. split; [reflexivity|]. split; [|split; [|split]].
+    + intros n Hn. rewrite flat_map_nil'; [reflexivity|]. intros e He. unfold contrib_e.
+      destruct (fst e =? n); [|reflexivity]. rewrite eval_rule_nograd; [reflexivity|].
+      rewrite (rules_own_edgesOf _ Hown _ _ He). exact Hgr.
+    + intros n _. reflexivity.
+    + rewrite Hgr. reflexivity.
+    + intros X. congruence.
+Qed.
+
+Lemma rules_own_sameS (h1 h2 : heap) : sameS h1 h2 -> rules_own h1 -> rules_own h2.
+Proof.
+  intros HS H c n e En He. apply (rules_own_edgesOf _ H). rewrite (sameS_edges _ _ HS).
+  unfold edgesOf. rewrite En. exact He.
+Qed.
+Lemma wf_heap_sameS (h1 h2 : heap) : sameS h1 h2 -> wf_heap h1 -> wf_heap h2.
+Proof.
+  intros HS H c n e En He. apply (wf_heap_edgesOf _ H). rewrite (sameS_edges _ _ HS).
+  unfold edgesOf. rewrite En. exact He.
+Qed.
+
+(* the finalised gradients, in processing order *)
+Definition logOf (hf : heap) (l : list nat) : list (nat * T) :=
+  flat_map (fun c => match gradOf hf c with Some g => [(c, g)] | None => [] end) l.
+
+Lemma pn_fold_cons c l (h : heap) log h' log' :
+  fold_left (process_node rd idseal) (c :: l) (h, log, Ok tt) = (h', log', Ok tt) ->
+  exists h1 log1, process_node rd idseal (h, log, Ok tt) c = (h1, log1, Ok tt) /\
+                  fold_left (process_node rd idseal) l (h1, log1, Ok tt) = (h', log', Ok tt).
+Proof.
+  cbn [fold_left]. destruct (process_node rd idseal (h, log, Ok tt) c) as [[h1 log1] r1] eqn:E1. intros E.
+  destruct r1 as [[]| |].
+  - exists h1, log1. split; [reflexivity|exact E].
+  - rewrite pn_sticky in E by discriminate. inversion E.
+  - rewrite pn_sticky in E by discriminate. inversion E.
+Qed.
+
+Lemma contributions_sameS (hf hs hs' : heap) l n :
+  sameS hs hs' -> contributions hf hs l n = contributions hf hs' l n.
+Proof.
+  intros HS. unfold contributions. apply flat_map_ext_in'. intros c _. rewrite (sameS_edges _ _ HS). reflexivity.
+Qed.
+
+(* --- all the nodes of an ordered duplicate-free list --- *)
+Lemma bp_fold_spec l : forall (h : heap) log h' log',
+  rules_own h -> wf_heap h -> NoDup l -> ordered h l -> (forall c, In c l -> trackedOf h c = true) ->
+  fold_left (process_node rd idseal) l (h, log, Ok tt) = (h', log', Ok tt) ->
+  sameS h h' /\
+  (forall n, trackedOf h n = true -> accAll (gradOf h n) (contributions h' h l n) = Some (gradOf h' n)) /\
+  (forall n, trackedOf h n = false -> gradOf h' n = gradOf h n) /\
+  log' = rev (logOf h' l) ++ log /\
+  (forall c e, In c l -> gradOf h' c <> None -> In e (edgesOf h c) -> trackedOf h (fst e) = true ->
+               exists g, eval_rule rd h' (snd e) = Ok g).
+Proof.
+  induction l as [|c l IH]; intros h log h' log' Hown Hwf Hnd Hord Htr E.
+  - cbn [fold_left] in E. inversion E; subst h' log'. split; [apply sameS_refl|].
+    split; [intros n _; reflexivity|]. split; [intros n _; reflexivity|]. split; [reflexivity|].
+    intros c e [].
+  - destruct (pn_fold_cons _ _ _ _ _ _ E) as (h1 & log1 & E1 & E2).
+    destruct (process_node_spec _ _ _ _ _ Hown Hwf E1) as (NS & Nc & Nacc & Nun & Nlog & Nok).
+    apply NoDup_cons_iff in Hnd. destruct Hnd as [Hnc Hnd']. destruct Hord as [Hc Hord].
+    assert (Hown1 : rules_own h1) by (eapply rules_own_sameS; eauto).
+    assert (Hwf1 : wf_heap h1) by (eapply wf_heap_sameS; eauto).
+    assert (Hord1 : ordered h1 l) by (eapply ordered_sameS; eauto).
+    assert (Htr1 : forall c0, In c0 l -> trackedOf h1 c0 = true).
+    { intros c0 H0. rewrite <- (sameS_trk _ _ NS). apply Htr. right. exact H0. }
+    destruct (IH h1 log1 h' log' Hown1 Hwf1 Hnd' Hord1 Htr1 E2) as (IS & Iacc & Iun & Ilog & Iok). clear IH.
+    assert (Hct : trackedOf h c = true) by (apply Htr; left; reflexivity).
+    (* the gradient of c is final once c has been processed *)
+    assert (Hfin : gradOf h' c = gradOf h c).
+    { rewrite <- Nc. assert (Hct1 : trackedOf h1 c = true) by (rewrite <- (sameS_trk _ _ NS); exact Hct).
+      specialize (Iacc c Hct1). unfold contributions in Iacc. rewrite flat_map_nil' in Iacc; [cbn [accAll] in Iacc; congruence|].
+      intros c' Hc'. apply flat_map_nil'. intros e He. unfold contrib_e.
+      destruct (fst e =? c) eqn:Ee; [|reflexivity]. apply Nat.eqb_eq in Ee. exfalso. apply Hnc.
+      rewrite <- Ee. eapply ordered_in; eauto; rewrite Ee; exact Hct1. }
+    assert (HSf : sameS h h') by (eapply sameS_trans; eauto).
+    assert (Hextc : forall n e, In e (edgesOf h c) -> contrib_e h' n e = contrib_e h n e).
+    { intros n e He. apply contrib_e_ext; [intros i; symmetry; apply (sameS_val _ _ HSf)|].
+      rewrite (rules_own_edgesOf _ Hown _ _ He). exact Hfin. }
+    split; [exact HSf|]. split; [|split; [|split]].
+    + intros n Hn. unfold contributions. cbn [flat_map]. fold (contributions h' h l n).
+      rewrite accAll_app. rewrite (flat_map_ext_in' _ _ _ (Hextc n)). rewrite (Nacc n Hn).
+      rewrite (contributions_sameS h' h h1 l n NS). apply Iacc. rewrite <- (sameS_trk _ _ NS). exact Hn.
+    + intros n Hn. rewrite Iun; [apply Nun; exact Hn|]. rewrite <- (sameS_trk _ _ NS). exact Hn.
+    + rewrite Ilog, Nlog. unfold logOf. cbn [flat_map]. rewrite rev_app_distr, <- app_assoc. f_equal.
+      rewrite Hfin. destruct (gradOf h c); reflexivity.
+    + intros c0 e [<-|H0] Hg He Ht.
+      * rewrite Hfin in Hg. destruct (Nok Hg e He Ht) as (g & Hgv). exists g. rewrite <- Hgv.
+        apply eval_rule_ext; [intros i; symmetry; apply (sameS_val _ _ HSf)|].
+        rewrite (rules_own_edgesOf _ Hown _ _ He). exact Hfin.
+      * apply (Iok c0 e H0 Hg); [rewrite <- (sameS_edges _ _ NS); exact He|rewrite <- (sameS_trk _ _ NS); exact Ht].
+Qed.
+
+(* MAIN THEOREM.  [order] is the processing order of bp_topo. *)
+Theorem bp_topo_adjoint (h : heap) root h' log :
+  rules_own h -> wf_heap h -> trackedOf h root = true ->
+  let order := topoOrder h root in
+  NoDup order -> (forall c, In c order -> trackedOf h c = true) -> ordered h order -> In root order ->
+  bp_topo rd idseal h root = (h', log, Ok tt) ->
+  exists rv ones, valOf h root = Some rv /\ toOnes rv = Ok ones /\
+  (* structure *)
+  length h' = length h /\
+  (forall i, valOf h' i = valOf h i /\ trackedOf h' i = trackedOf h i /\ edgesOf h' i = edgesOf h i) /\
+  (* nodes outside the order keep their gradient *)
+  (forall n, ~ In n order -> gradOf h' n = gradOf h n) /\
+  (* nodes of the order: previous gradient + seed (root) + every consumer edge, once, at the final gradient *)
+  (forall n, In n order ->
+     accAll (gradOf h n) ((if n =? root then [ones] else []) ++ contributions h' h order n) = Some (gradOf h' n)) /\
+  (* every evaluated rule succeeded, also when re-evaluated in the final heap *)
+  (forall c e, In c order -> gradOf h' c <> None -> In e (edgesOf h c) -> trackedOf h (fst e) = true ->
+               exists g, eval_rule rd h' (snd e) = Ok g) /\
+  (* the log lists the final gradients in processing order (newest first) *)
+  log = rev (logOf h' order).
+Proof.
+  intros Hown Hwf Hroot order Hnd Htr Hord Hin. unfold bp_topo. rewrite Hroot. cbn [negb]. fold order.
+  set (h1 := markDirty h order).
+  assert (HS1 : sameS h h1) by apply sameS_markDirty.
+  assert (Hg1 : forall j, gradOf h1 j = gradOf h j) by (intros j; apply gradOf_markDirty).
+  destruct (valOf h1 root) as [rv|] eqn:Ev; [|intros E; inversion E].
+  destruct (toOnes rv) as [ones| |] eqn:Eo; [|intros E; inversion E|intros E; inversion E].
+  destruct (accumulate h1 root ones) as [h2 r] eqn:Ea.
+  destruct r as [[]| |]; [|intros E; inversion E|intros E; inversion E].
+  intros E. destruct (accumulate_ok _ _ _ _ _ Ea eq_refl) as (o' & Hacc & Hh2).
+  assert (HS2 : sameS h h2) by (eapply sameS_trans; [exact HS1|subst h2; apply sameS_setGrad]).
+  assert (Hrl : root < length h1) by (rewrite <- (proj1 HS1); apply tracked_lt; exact Hroot).
+  assert (Hg2 : forall j, gradOf h2 j = if j =? root then o' else gradOf h j).
+  { intros j. subst h2. rewrite gradOf_setGrad. destruct (j =? root); [|apply Hg1].
+    apply Nat.ltb_lt in Hrl. rewrite Hrl. reflexivity. }
+  assert (Hown2 : rules_own h2) by (eapply rules_own_sameS; eauto).
+  assert (Hwf2 : wf_heap h2) by (eapply wf_heap_sameS; eauto).
+  assert (Hord2 : ordered h2 order) by (eapply ordered_sameS; eauto).
+  assert (Htr2 : forall c, In c order -> trackedOf h2 c = true).
+  { intros c Hc. rewrite <- (sameS_trk _ _ HS2). apply Htr. exact Hc. }
+  destruct (bp_fold_spec _ _ _ _ _ Hown2 Hwf2 Hnd Hord2 Htr2 E) as (FS & Facc & Fun & Flog & Fok).
+  assert (HSf : sameS h h') by (eapply sameS_trans; eauto).
+  exists rv, ones. split; [rewrite (sameS_val _ _ HS1); exact Ev|]. split; [exact Eo|].
+  split; [symmetry; apply (proj1 HSf)|]. split.
+  { intros i. destruct HSf as [_ H]. destruct (H i) as (a & b & c). repeat split; congruence. }
+  split; [|split; [|split]].
+  - intros n Hn. assert (Hnr : n <> root) by (intro X; subst n; exact (Hn Hin)).
+    apply Nat.eqb_neq in Hnr. destruct (trackedOf h n) eqn:Et.
+    + rewrite (sameS_trk _ _ HS2) in Et. specialize (Facc n Et). unfold contributions in Facc. rewrite flat_map_nil' in Facc.
+      * cbn [accAll] in Facc. rewrite Hg2, Hnr in Facc. congruence.
+      * intros c Hc. apply flat_map_nil'. intros e He. unfold contrib_e.
+        destruct (fst e =? n) eqn:Ee; [|reflexivity]. apply Nat.eqb_eq in Ee. exfalso. apply Hn.
+        rewrite <- Ee. eapply ordered_in; eauto; rewrite Ee; exact Et.
+    + rewrite (sameS_trk _ _ HS2) in Et. rewrite (Fun n Et), Hg2, Hnr. reflexivity.
+  - intros n Hn. assert (Et : trackedOf h2 n = true) by (apply Htr2; exact Hn).
+    specialize (Facc n Et). rewrite <- (contributions_sameS h' h h2 order n HS2) in Facc.
+    rewrite Hg2 in Facc. destruct (n =? root) eqn:Enr.
+    + apply Nat.eqb_eq in Enr. subst n. cbn [app accAll]. rewrite <- (Hg1 root), Hacc. exact Facc.
+    + cbn [app]. exact Facc.
+  - intros c e Hc Hg He Ht. apply (Fok c e Hc Hg); [rewrite <- (sameS_edges _ _ HS2); exact He|].
+    rewrite <- (sameS_trk _ _ HS2). exact Ht.
+  - rewrite Flog. apply app_nil_r.
+Qed.
+
+(* ------------------------------------------------------------------------------------ *)
+(* 4. counting the rule evaluations                                                      *)
+(* ------------------------------------------------------------------------------------ *)
+
+(* process_edge / process_node / bp_topo instrumented with a counter of eval_rule calls *)
+Definition process_edge_cnt (c : nat) (st : heap * res unit * nat) (e : nat * rule) : heap * res unit * nat :=
+  match st with
+  | (h, Ok _, k) =>
+      if trackedOf h (fst e) then
+        match eval_rule rd h (snd e) with
+        | Ok g => (accumulate h (fst e) g, S k)
+        | Err => (h, Err, S k)
+        | Panic => (h, Panic, S k)
+        end
+      else (h, Ok tt, k)
+  | _ => st
+  end.
+
+Definition process_node_cnt (st : heap * list (nat * T) * res unit * nat) (c : nat)
+  : heap * list (nat * T) * res unit * nat :=
+  match st with
+  | (h, log, Ok _, k) =>
+      match nth_error h c with
+      | Some n =>
+          match ngrad n with
+          | Some g =>
+              let h1 := setGrad h c (Some g) in
+              let '(h2, r, k2) := fold_left (process_edge_cnt c) (nedges n) (h1, Ok tt, k) in
+              (h2, (c, g) :: log, r, k2)
+          | None => (h, log, Ok tt, k)
+          end
+      | None => (h, log, Panic, k)
+      end
+  | _ => st
+  end.
+
+Definition bp_topo_cnt (h : heap) (root : nat) : heap * list (nat * T) * res unit * nat :=
+  if negb (trackedOf h root) then (h, [], Ok tt, 0) else
+  let order := topoOrder h root in
+  let h1 := markDirty h order in
+  match valOf h1 root with
+  | None => (h, [], Panic, 0)
+  | Some rv =>
+      match toOnes rv with
+      | Ok ones =>
+          match accumulate h1 root ones with
+          | (h2, Ok _) => fold_left process_node_cnt order (h2, [], Ok tt, 0)
+          | (h2, Err) => (h2, [], Err, 0)
+          | (h2, Panic) => (h2, [], Panic, 0)
+          end
+      | Err => (h1, [], Err, 0)
+      | Panic => (h1, [], Panic, 0)
+      end
+  end.
+
+End Run.
+
+(* ------------------------------------------------------------------------------------ *)
+(* 2. rules_own and wf_heap hold for every heap built through the API                    *)
+(* ------------------------------------------------------------------------------------ *)
+
+Definition edges_ok (P : nat -> nat * rule -> Prop) (h : heap) : Prop :=
+  forall c n e, nth_error h c = Some n -> In e (nedges n) -> P c e.
+Definition Pown : nat -> nat * rule -> Prop := fun c e => rule_y (snd e) = c.
+Definition Pwf : nat -> nat * rule -> Prop := fun c e => fst e < c.
+
+Lemma rules_own_edges_ok h : rules_own h <-> edges_ok Pown h.
+Proof. split; intros H; exact H. Qed.
+Lemma wf_heap_edges_ok h : wf_heap h <-> edges_ok Pwf h.
+Proof. split; intros H; exact H. Qed.
+
+Lemma valOf_lt (h : heap) x v : valOf h x = Some v -> x < length h.
+Proof.
+  unfold valOf. destruct (nth_error h x) eqn:E; [|discriminate]. intros _. apply nth_error_Some. congruence.
+Qed.
+
+Lemma edges_ok_nil P : edges_ok P [].
+Proof. intros c n e Hn. destruct c; discriminate. Qed.
+
+Lemma edges_ok_alloc P (h : heap) v tr di es name :
+  edges_ok P h -> (forall e, In e es -> P (length h) e) ->
+  edges_ok P (fst (alloc h v (tr, di, es) name)).
+Proof.
+  intros H Hes c n e Hn He. cbn [alloc fst] in Hn.
+  destruct (Nat.lt_ge_cases c (length h)) as [Hlt|Hge].
+  - rewrite nth_error_app1 in Hn by exact Hlt. eapply H; eauto.
+  - rewrite nth_error_app2 in Hn by exact Hge. destruct (c - length h) as [|k] eqn:Ek.
+    + cbn [nth_error] in Hn. inversion Hn; subst n. cbn [nedges] in He.
+      assert (Hc : c = length h) by lia. subst c. apply Hes; exact He.
+    + cbn [nth_error] in Hn. destruct k; discriminate.
+Qed.
+
+Lemma edges_ok_alloc_ctx P (h : heap) v ops es name :
+  edges_ok P h -> (forall e, In e es -> P (length h) e) ->
+  edges_ok P (fst (alloc h v (mkCtx h ops es) name)).
+Proof.
+  intros H Hes. unfold mkCtx. destruct (existsb (dirtyOf h) ops).
+  - apply edges_ok_alloc; [exact H|intros e []].
+  - destruct (negb (existsb (trackedOf h) ops)).
+    + apply edges_ok_alloc; [exact H|intros e []].
+    + apply edges_ok_alloc; assumption.
+Qed.
+
+Lemma alloc_fst (h : heap) v ctx name h' id : alloc h v ctx name = (h', id) -> h' = fst (alloc h v ctx name).
+Proof. intros E. rewrite E. reflexivity. Qed.
+
+Lemma edges_ok_leaf P (h : heap) v tracked name : edges_ok P h -> edges_ok P (fst (leaf h v tracked name)).
+Proof. intros H. unfold leaf. apply edges_ok_alloc; [exact H|intros e []]. Qed.
+
+Lemma edges_ok_op1 P (h : heap) x f mkrule name :
+  edges_ok P h -> (x < length h -> P (length h) (x, mkrule (length h))) ->
+  edges_ok P (fst (h_op1 h x f mkrule name)).
+Proof.
+  intros H HP. unfold h_op1. destruct (valOf h x) as [xv|] eqn:Ev; [|exact H].
+  destruct (f xv) as [v| |]; [|exact H|exact H]. cbv zeta.
+  destruct (alloc h v (mkCtx h [x] [(x, mkrule (length h))]) name) as [h' id] eqn:Ea.
+  apply alloc_fst in Ea. cbn [fst]. subst h'. apply edges_ok_alloc_ctx; [exact H|].
+  intros e [<-|[]]. apply HP. eapply valOf_lt; eauto.
+Qed.
+
+Lemma edges_ok_cmp P (h : heap) b x u name : edges_ok P h -> edges_ok P (fst (h_cmp h b x u name)).
+Proof.
+  intros H. unfold h_cmp. destruct (valOf h x) as [xv|]; [|exact H]. destruct (valOf h u) as [uv|]; [|exact H].
+  destruct (v_same b xv uv) as [v| |]; [|exact H|exact H].
+  destruct (alloc h v (false, false, []) name) as [h' id] eqn:Ea. apply alloc_fst in Ea. cbn [fst]. subst h'.
+  apply edges_ok_alloc; [exact H|intros e []].
+Qed.
+
+Lemma edges_ok_elsel P (h : heap) b x u name :
+  edges_ok P h ->
+  (x < length h -> u < length h ->
+   P (length h) (x, RElSel (length h) x u) /\ P (length h) (u, RElSel (length h) u x)) ->
+  edges_ok P (fst (h_elsel h b x u name)).
+Proof.
+  intros H HP. unfold h_elsel. destruct (valOf h x) as [xv|] eqn:Ex; [|exact H].
+  destruct (valOf h u) as [uv|] eqn:Eu; [|exact H].
+  destruct (v_same b xv uv) as [v| |]; [|exact H|exact H]. cbv zeta.
+  destruct (alloc h v (mkCtx h [x; u] [(x, RElSel (length h) x u); (u, RElSel (length h) u x)]) name) as [h' id] eqn:Ea.
+  apply alloc_fst in Ea. cbn [fst]. subst h'. apply edges_ok_alloc_ctx; [exact H|].
+  destruct HP as [P1 P2]; [eapply valOf_lt; eauto|eapply valOf_lt; eauto|].
+  intros e [<-|[<-|[]]]; assumption.
+Qed.
+
+Lemma edges_ok_patch P (h : heap) x index p name :
+  edges_ok P h ->
+  (x < length h -> p < length h ->
+   P (length h) (x, RPatchX (length h) p index) /\ P (length h) (p, RPatchP (length h) p index)) ->
+  edges_ok P (fst (h_patch h x index p name)).
+Proof.
+  intros H HP. unfold h_patch. destruct (valOf h x) as [xv|] eqn:Ex; [|exact H].
+  destruct (valOf h p) as [pv|] eqn:Ep; [|exact H].
+  destruct (v_patch xv index pv) as [v| |]; [|exact H|exact H]. cbv zeta.
+  destruct (alloc h v (mkCtx h [x; p] [(x, RPatchX (length h) p index); (p, RPatchP (length h) p index)]) name) as [h' id] eqn:Ea.
+  apply alloc_fst in Ea. cbn [fst]. subst h'. apply edges_ok_alloc_ctx; [exact H|].
+  destruct HP as [P1 P2]; [eapply valOf_lt; eauto|eapply valOf_lt; eauto|].
+  intros e [<-|[<-|[]]]; assumption.
+Qed.
+
+Lemma edges_ok_bcast2 (P : nat -> nat * rule -> Prop) (h : heap) x u s1 s2 :
+  (forall y a, a < y -> P y (a, RBroadcast y a)) ->
+  edges_ok P h -> edges_ok P (fst (h_bcast2 h x u s1 s2)).
+Proof.
+  intros Pbc H. unfold h_bcast2.
+  assert (H1 : edges_ok P (fst (h_broadcast h x s1 None))).
+  { unfold h_broadcast. apply edges_ok_op1; [exact H|]. intros Hx. apply Pbc. exact Hx. }
+  destruct (h_broadcast h x s1 None) as [h1 [b1| |]]; cbn [fst] in *; [|exact H|exact H].
+  assert (H2 : edges_ok P (fst (h_broadcast h1 u s2 None))).
+  { unfold h_broadcast. apply edges_ok_op1; [exact H1|]. intros Hx. apply Pbc. exact Hx. }
+  destruct (h_broadcast h1 u s2 None) as [h2 [b2| |]]; cbn [fst] in *; [exact H2|exact H|exact H].
+Qed.
+
+Lemma edges_ok_binop (P : nat -> nat * rule -> Prop) (h : heap) x u s1 s2 f edges name :
+  (forall y a, a < y -> P y (a, RBroadcast y a)) ->
+  (forall y a1 a2 e, a1 < y -> a2 < y -> In e (edges y a1 a2) -> P y e) ->
+  edges_ok P h -> edges_ok P (fst (h_binop h x u s1 s2 f edges name)).
+Proof.
+  intros Pbc Ped H. unfold h_binop.
+  pose proof (edges_ok_bcast2 P h x u s1 s2 Pbc H) as H2.
+  destruct (h_bcast2 h x u s1 s2) as [h2 [[b1 b2]| |]]; cbn [fst] in *; [|exact H|exact H].
+  destruct (valOf h2 b1) as [v1|] eqn:E1; [|exact H]. destruct (valOf h2 b2) as [v2|] eqn:E2; [|exact H].
+  destruct (f v1 v2) as [v|]; [|exact H]. cbv zeta.
+  destruct (alloc h2 v (mkCtx h2 [b1; b2] (edges (length h2) b1 b2)) name) as [h3 id] eqn:Ea.
+  apply alloc_fst in Ea. cbn [fst]. subst h3. apply edges_ok_alloc_ctx; [exact H2|].
+  intros e He. apply (Ped (length h2) b1 b2 e); [eapply valOf_lt; eauto|eapply valOf_lt; eauto|exact He].
+Qed.
+
+Lemma concatEdges_in y dim xs : forall base e, In e (concatEdges y dim xs base) ->
+  rule_y (snd e) = y /\ In (fst e) (map fst xs).
+Proof.
+  induction xs as [|[x xv] xs IH]; intros base e He; cbn [concatEdges] in He; [destruct He|].
+  destruct He as [<-|He].
+  - split; [reflexivity|left; reflexivity].
+  - destruct (IH _ _ He) as [I1 I2]. split; [exact I1|right; exact I2].
+Qed.
+
+Lemma mapM_in_some {X Y} (f : X -> option Y) l r : mapM f l = Some r -> forall x, In x l -> exists y, f x = Some y.
+Proof.
+  revert r. induction l as [|a l IH]; intros r H x Hx; [destruct Hx|]. cbn [mapM] in H.
+  destruct (f a) as [y|] eqn:Ea; [|discriminate]. cbn [obind] in H.
+  destruct (mapM f l) as [ys|] eqn:El; [|discriminate]. destruct Hx as [<-|Hx]; [eauto|]. eapply IH; eauto.
+Qed.
+
+Lemma edges_ok_concat (P : nat -> nat * rule -> Prop) (h : heap) xs dim name :
+  (forall y a r, a < y -> rule_y r = y -> P y (a, r)) ->
+  edges_ok P h -> edges_ok P (fst (h_concat h xs dim name)).
+Proof.
+  intros HP H. unfold h_concat. destruct (mapM (valOf h) xs) as [vs|] eqn:Em; [|exact H].
+  destruct (v_concat vs dim) as [v| |]; [|exact H|exact H]. cbv zeta.
+  destruct (alloc h v (mkCtx h xs (concatEdges (length h) (Z.to_nat dim) (combine xs vs) 0)) name) as [h' id] eqn:Ea.
+  apply alloc_fst in Ea. cbn [fst]. subst h'. apply edges_ok_alloc_ctx; [exact H|].
+  intros [a r] He. apply concatEdges_in in He. cbn [fst snd] in He. destruct He as [Hy Hin].
+  apply HP; [|exact Hy]. apply in_map_iff in Hin. destruct Hin as ([a' v'] & Ha & Hin). cbn [fst] in Ha. subst a'.
+  apply in_combine_l in Hin. destruct (mapM_in_some _ _ _ Em _ Hin) as (y & Hyv). eapply valOf_lt; eauto.
+Qed.
+
+Lemma edges_ok_updNode P (h : heap) i f :
+  (forall n e, In e (nedges (f n)) -> In e (nedges n)) -> edges_ok P h -> edges_ok P (updNode h i f).
+Proof.
+  intros Hf H c n e Hn He. rewrite nth_error_updNode in Hn. destruct (nth_error h c) as [n0|] eqn:E0; [|discriminate].
+  inversion Hn; subst n. destruct (c =? i); [apply Hf in He|]; eapply H; eauto.
+Qed.
+
+Lemma edges_ok_reset P (h : heap) x tracked : edges_ok P h -> edges_ok P (h_reset h x tracked).
+Proof. intros H. unfold h_reset. apply edges_ok_updNode; [|exact H]. intros n e []. Qed.
+Lemma edges_ok_setGrad P (h : heap) i g : edges_ok P h -> edges_ok P (setGrad h i g).
+Proof. intros H. unfold setGrad. apply edges_ok_updNode; [|exact H]. intros n e He. exact He. Qed.
+Lemma edges_ok_markDirty P (h : heap) l : edges_ok P h -> edges_ok P (markDirty h l).
+Proof.
+  intros H c n e Hn He. rewrite nth_error_markDirty in Hn. destruct (nth_error h c) as [n0|] eqn:E0; [|discriminate].
+  inversion Hn; subst n. destruct (memb c l); eapply H; eauto.
+Qed.
+
+(* --- the two invariants, method by method --- *)
+Lemma Pown_bc : forall y a, a < y -> Pown y (a, RBroadcast y a).
+Proof. intros y a _. reflexivity. Qed.
+Lemma Pwf_bc : forall y a, a < y -> Pwf y (a, @RBroadcast A y a).
+Proof. intros y a H. exact H. Qed.
+
+Lemma rules_own_nil : rules_own [].
+Proof. apply edges_ok_nil. Qed.
+Lemma wf_heap_nil : wf_heap [].
+Proof. apply edges_ok_nil. Qed.
+
+Lemma rules_own_leaf h v tracked name : rules_own h -> rules_own (fst (leaf h v tracked name)).
+Proof. apply edges_ok_leaf. Qed.
+Lemma wf_heap_leaf h v tracked name : wf_heap h -> wf_heap (fst (leaf h v tracked name)).
+Proof. apply edges_ok_leaf. Qed.
+
+Lemma rules_own_op1 h x f mkrule name :
+  (forall y, rule_y (mkrule y) = y) -> rules_own h -> rules_own (fst (h_op1 h x f mkrule name)).
+Proof. intros Hm H. apply edges_ok_op1; [exact H|]. intros _. apply Hm. Qed.
+Lemma wf_heap_op1 h x f mkrule name : wf_heap h -> wf_heap (fst (h_op1 h x f mkrule name)).
+Proof. intros H. apply edges_ok_op1; [exact H|]. intros Hx. exact Hx. Qed.
+
+Lemma rules_own_slice h x index name : rules_own h -> rules_own (fst (h_slice h x index name)).
+Proof. apply rules_own_op1. reflexivity. Qed.
+Lemma rules_own_transpose h x name : rules_own h -> rules_own (fst (h_transpose h x name)).
+Proof. apply rules_own_op1. reflexivity. Qed.
+Lemma rules_own_reshape h x shape name : rules_own h -> rules_own (fst (h_reshape h x shape name)).
+Proof. apply rules_own_op1. reflexivity. Qed.
+Lemma rules_own_unsqueeze h x dim name : rules_own h -> rules_own (fst (h_unsqueeze h x dim name)).
+Proof. apply rules_own_op1. reflexivity. Qed.
+Lemma rules_own_squeeze h x dim name : rules_own h -> rules_own (fst (h_squeeze h x dim name)).
+Proof. apply rules_own_op1. reflexivity. Qed.
+Lemma rules_own_flatten h x dim name : rules_own h -> rules_own (fst (h_flatten h x dim name)).
+Proof. apply rules_own_op1. reflexivity. Qed.
+Lemma rules_own_broadcast h x shape name : rules_own h -> rules_own (fst (h_broadcast h x shape name)).
+Proof. apply rules_own_op1. reflexivity. Qed.
+Lemma rules_own_reduceAlong h r x dim name : rules_own h -> rules_own (fst (h_reduceAlong h r x dim name)).
+Proof. apply rules_own_op1. intros y. destruct r; reflexivity. Qed.
+Lemma rules_own_scale h x a name : rules_own h -> rules_own (fst (h_scale h x a name)).
+Proof. apply rules_own_op1. reflexivity. Qed.
+Lemma rules_own_pow h x a az name : rules_own h -> rules_own (fst (h_pow h x a az name)).
+Proof. apply rules_own_op1. reflexivity. Qed.
+Lemma rules_own_math h f x name : rules_own h -> rules_own (fst (h_math h f x name)).
+Proof. apply rules_own_op1. intros y. destruct f; reflexivity. Qed.
+
+Lemma rules_own_cmp h b x u name : rules_own h -> rules_own (fst (h_cmp h b x u name)).
+Proof. apply edges_ok_cmp. Qed.
+Lemma wf_heap_cmp h b x u name : wf_heap h -> wf_heap (fst (h_cmp h b x u name)).
+Proof. apply edges_ok_cmp. Qed.
+
+Lemma rules_own_elsel h b x u name : rules_own h -> rules_own (fst (h_elsel h b x u name)).
+Proof. intros H. apply edges_ok_elsel; [exact H|]. intros _ _. split; reflexivity. Qed.
+Lemma wf_heap_elsel h b x u name : wf_heap h -> wf_heap (fst (h_elsel h b x u name)).
+Proof. intros H. apply edges_ok_elsel; [exact H|]. intros Hx Hu. split; assumption. Qed.
+
+Lemma rules_own_patch h x index p name : rules_own h -> rules_own (fst (h_patch h x index p name)).
+Proof. intros H. apply edges_ok_patch; [exact H|]. intros _ _. split; reflexivity. Qed.
+Lemma wf_heap_patch h x index p name : wf_heap h -> wf_heap (fst (h_patch h x index p name)).
+Proof. intros H. apply edges_ok_patch; [exact H|]. intros Hx Hp. split; assumption. Qed.
+
+Lemma rules_own_binop h x u s1 s2 f edges name :
+  (forall y a1 a2 e, In e (edges y a1 a2) -> rule_y (snd e) = y) ->
+  rules_own h -> rules_own (fst (h_binop h x u s1 s2 f edges name)).
+Proof. intros He H. apply edges_ok_binop; [exact Pown_bc| |exact H]. intros y a1 a2 e _ _ Hi. eapply He; eauto. Qed.
+Lemma wf_heap_binop h x u s1 s2 f edges name :
+  (forall y a1 a2 e, In e (edges y a1 a2) -> fst e = a1 \/ fst e = a2) ->
+  wf_heap h -> wf_heap (fst (h_binop h x u s1 s2 f edges name)).
+Proof.
+  intros He H. apply edges_ok_binop; [exact Pwf_bc| |exact H]. intros y a1 a2 e H1 H2 Hi. unfold Pwf.
+  destruct (He _ _ _ _ Hi) as [-> | ->]; assumption.
+Qed.
+
+Lemma arithEdges_in b y a1 a2 e : In e (arithEdges b y a1 a2) ->
+  rule_y (snd e) = y /\ (fst e = a1 \/ fst e = a2).
+Proof. destruct b; cbn [arithEdges]; intros Hi; repeat (destruct Hi as [<-|Hi]; [cbn; auto|]); destruct Hi. Qed.
+
+Lemma rules_own_arith h b x u name : rules_own h -> rules_own (fst (h_arith h b x u name)).
+Proof.
+  intros H. unfold h_arith. destruct (valOf h x); [|exact H]. destruct (valOf h u); [|exact H].
+  apply rules_own_binop; [|exact H]. intros y a1 a2 e Hi. apply (arithEdges_in _ _ _ _ _ Hi).
+Qed.
+Lemma wf_heap_arith h b x u name : wf_heap h -> wf_heap (fst (h_arith h b x u name)).
+Proof.
+  intros H. unfold h_arith. destruct (valOf h x); [|exact H]. destruct (valOf h u); [|exact H].
+  apply wf_heap_binop; [|exact H]. intros y a1 a2 e Hi. apply (arithEdges_in _ _ _ _ _ Hi).
+Qed.
+Lemma rules_own_dot h x u name : rules_own h -> rules_own (fst (h_dot h x u name)).
+Proof.
+  intros H. unfold h_dot. destruct (valOf h x) as [xv|]; [|exact H]. destruct (valOf h u) as [uv|]; [|exact H].
+  destruct (validateDotProductDims (zdims xv) (zdims uv)); [|exact H].
+  apply rules_own_binop; [|exact H]. intros y a1 a2 e [<-|[<-|[]]]; reflexivity.
+Qed.
+Lemma wf_heap_dot h x u name : wf_heap h -> wf_heap (fst (h_dot h x u name)).
+Proof.
+  intros H. unfold h_dot. destruct (valOf h x) as [xv|]; [|exact H]. destruct (valOf h u) as [uv|]; [|exact H].
+  destruct (validateDotProductDims (zdims xv) (zdims uv)); [|exact H].
+  apply wf_heap_binop; [|exact H]. intros y a1 a2 e [<-|[<-|[]]]; cbn; auto.
+Qed.
+Lemma rules_own_matmul h x u name : rules_own h -> rules_own (fst (h_matmul h x u name)).
+Proof.
+  intros H. unfold h_matmul. destruct (valOf h x) as [xv|]; [|exact H]. destruct (valOf h u) as [uv|]; [|exact H].
+  destruct (validateMatMulDims (zdims xv) (zdims uv)); [|exact H].
+  apply rules_own_binop; [|exact H]. intros y a1 a2 e [<-|[<-|[]]]; reflexivity.
+Qed.
+Lemma wf_heap_matmul h x u name : wf_heap h -> wf_heap (fst (h_matmul h x u name)).
+Proof.
+  intros H. unfold h_matmul. destruct (valOf h x) as [xv|]; [|exact H]. destruct (valOf h u) as [uv|]; [|exact H].
+  destruct (validateMatMulDims (zdims xv) (zdims uv)); [|exact H].
+  apply wf_heap_binop; [|exact H]. intros y a1 a2 e [<-|[<-|[]]]; cbn; auto.
+Qed.
+
+Lemma rules_own_concat h xs dim name : rules_own h -> rules_own (fst (h_concat h xs dim name)).
+Proof. apply edges_ok_concat. intros y a r _ Hy. exact Hy. Qed.
+Lemma wf_heap_concat h xs dim name : wf_heap h -> wf_heap (fst (h_concat h xs dim name)).
+Proof. apply edges_ok_concat. intros y a r Ha _. exact Ha. Qed.
+
+Lemma rules_own_reset h x tracked : rules_own h -> rules_own (h_reset h x tracked).
+Proof. apply edges_ok_reset. Qed.
+Lemma wf_heap_reset h x tracked : wf_heap h -> wf_heap (h_reset h x tracked).
+Proof. apply edges_ok_reset. Qed.
+Lemma rules_own_setGrad h i g : rules_own h -> rules_own (setGrad h i g).
+Proof. apply edges_ok_setGrad. Qed.
+Lemma wf_heap_setGrad h i g : wf_heap h -> wf_heap (setGrad h i g).
+Proof. apply edges_ok_setGrad. Qed.
+Lemma rules_own_markDirty h l : rules_own h -> rules_own (markDirty h l).
+Proof. apply edges_ok_markDirty. Qed.
+Lemma wf_heap_markDirty h l : wf_heap h -> wf_heap (markDirty h l).
+Proof. apply edges_ok_markDirty. Qed.
+
+
 End BackpropP.
+
+(* ------------------------------------------------------------------------------------ *)
+(* 5. refutation witnesses for the pinned algorithm [walk] (regression lemmas)           *)
+(* ------------------------------------------------------------------------------------ *)
+Module Witness.
+Local Open Scope Z_scope.
+
+#[local] Instance Z_scalar : Scalar Z := {|
+  s0 := 0; s1 := 1;
+  sadd := Z.add; ssub := Z.sub; smul := Z.mul; sdiv := Z.div; spow := fun _ _ => 1;
+  sexp := fun a => a; slog := fun a => a; ssin := fun a => a; scos := fun a => a; stan := fun a => a;
+  ssinh := fun a => a; scosh := fun a => a; stanh := fun a => a; ssqrt := fun a => a;
+  smax := Z.max; smin := Z.min; sselgt := Z.max; ssellt := Z.min;
+  seqt := fun a b => if a =? b then 1 else 0; snet := fun a b => if a =? b then 0 else 1;
+  sgt := fun a b => if a >? b then 1 else 0; sge := fun a b => if a >=? b then 1 else 0;
+  slt := fun a b => if a <? b then 1 else 0; sle := fun a b => if a <=? b then 1 else 0;
+  sgeb := fun a b => if a >=? b then 1 else 0; strunc := fun a => a;
+  sofnat := Z.of_nat; sconst := fun m e => m * 10 ^ e;
+  sneginf := -1000000; sposinf := 1000000; srnd := fun _ k => Z.of_nat k
+|}.
+
+Definition vec2 (a b : Z) : tensor Z := mkT [2%nat] (Vec [Sc a; Sc b]).
+Definition ids : option nat -> tensor Z -> tensor Z := fun _ g => g.
+
+(* x (tracked leaf, [3;5]);  m = x.Scale(2);  y = m.Add(m) *)
+Definition diamond : @heap Z * nat :=
+  let '(h0, x) := leaf [] (vec2 3 5) true None in
+  match h_scale h0 x 2 None with
+  | (h1, Ok m) => match h_arith h1 BiAdd m m None with (h2, Ok y) => (h2, y) | _ => ([], 0%nat) end
+  | _ => ([], 0%nat)
+  end.
+
+Definition dh : @heap Z := fst diamond.
+Definition dy : nat := snd diamond.
+
+Example diamond_shape : length dh = 5%nat /\ dy = 4%nat /\ topoOrder dh dy = [4; 3; 2; 1; 0]%nat.
+Proof. vm_compute. repeat split. Qed.
+
+(* the pinned walk leaves dy/dx = 6 on x (m's partial gradient is pushed to x twice: 1*2 + 2*2),
+   the repaired algorithm leaves the correct 4 *)
+Lemma walk_refuted :
+  let w := bp_walk RedSum 50 dh dy in
+  let t := bp_topo RedSum ids dh dy in
+  snd w = Ok tt /\ gradOf (fst (fst w)) 0 = Some (vec2 6 6) /\
+  snd t = Ok tt /\ gradOf (fst (fst t)) 0 = Some (vec2 4 4).
+Proof. vm_compute. repeat split. Qed.
+
+(* the doubling chain  x_{i+1} = x_i + x_i  of depth d *)
+Fixpoint chain (d : nat) (st : @heap Z * nat) : @heap Z * nat :=
+  match d with
+  | O => st
+  | S d' => match h_arith (fst st) BiAdd (snd st) (snd st) None with
+            | (h', Ok y) => chain d' (h', y)
+            | _ => ([], 0%nat)
+            end
+  end.
+Definition chainH (d : nat) : @heap Z * nat := chain d (leaf [] (mkT [1%nat] (Vec [Sc 1])) true None).
+
+Definition walk_count (d : nat) : nat := let '(h, y) := chainH d in snd (fst (bp_walk RedSum 100 h y)).
+Definition topo_count (d : nat) : nat := let '(h, y) := chainH d in snd (bp_topo_cnt RedSum h y).
+Definition edge_count (d : nat) : nat := length (flat_map (@nedges Z) (fst (chainH d))).
+
+Definition depths : list nat := [1; 2; 3; 4; 5; 6]%nat.
+Eval vm_compute in (map walk_count depths, map topo_count depths, map edge_count depths,
+                    map (fun d => let '(h, y) := chainH d in (length h, length (topoOrder h y))) depths).
+
+End Witness.
